@@ -60,6 +60,9 @@ structure Req where
   now : Nat
   /-- the error class when the MODEL's sequence of `with_file` calls fails (then `cfg.files` is empty) -/
   buildErr : Option String := none
+  /-- `PackageBuilder::new(..)` of the request and the calls made on it, in the harness' order (input of `Build.run`) -/
+  st0 : RpmVerif.Build.St := ⟨cfg, [], []⟩
+  calls : List RpmVerif.Build.Call := []
 
 def kv (toks : List String) (k : String) : Option String :=
   toks.findSome? fun t => if t.startsWith (k ++ "=") then some (t.drop (k.length + 1)).toString else none
@@ -258,7 +261,7 @@ def callsOf (toks : List String) (fileReqs : List FileReq) : List RpmVerif.Build
   let sdLast := toks.contains "sdlast"
   simple ++ (if sdLast then [] else sd) ++ seq toks fileCalls ++ (if sdLast then sd else [])
 
-def parseReq (toks : List String) : Option Req := do
+def parseReqWith (valid : Bytes → Bool) (toks : List String) : Option Req := do
   let g := kv toks
   -- (a malformed `f=` token makes the request unreadable rather than silently dropping a file)
   let fileReqs : List FileReq := toks.filterMap fun t => if t.startsWith "f=" then parseFile t else none
@@ -270,12 +273,15 @@ def parseReq (toks : List String) : Option Req := do
       (hb ((g "s").getD "-")) (defaultComp nobz)
     { s with base := { s.base with largeFileThreshold := ((g "lf").bind (·.toNat?)).getD 4294967295 } }
   let calls := callsOf toks fileReqs
-  let (cfg, buildErr) : Cfg × Option String := match RpmVerif.Build.run sha256hex (fun _ => true) calls st0 with
+  let (cfg, buildErr) : Cfg × Option String := match RpmVerif.Build.run sha256hex valid calls st0 with
     | .ok st => (st.cfg, none)
     | .err e => (st0.cfg, some e)
     | .panic p => (st0.cfg, some ("panic:" ++ p))
   let now ← (g "now").bind (·.toNat?)
-  pure ⟨cfg, fileReqs, now, buildErr⟩
+  pure ⟨cfg, fileReqs, now, buildErr, st0, calls⟩
+
+/-- (the configurations of C06 / C08 / C09 / C11 carry valid capability texts only) -/
+def parseReq (toks : List String) : Option Req := parseReqWith (fun _ => true) toks
 
 /-- the verify scriptlet through the raw getters, as harness `verify_script_dump` -/
 def verifyDump (h : Header) : String :=
